@@ -301,6 +301,9 @@ func init() {
 			}
 			return concatStr(ps...), true
 		}
+		if s.Kind != sBytes || old.Kind != sBytes {
+			return in.replaceAllTokens(s, old, nw), true
+		}
 		// symbolic needle (e.g. namespace + ":"): both byte-precise
 		sb, ob := in.strBytes(s, "ReplaceAll"), in.strBytes(old, "ReplaceAll needle")
 		var out []*Str
@@ -424,3 +427,72 @@ func afterOf(segs []*Str, sep string, last bool) *Str {
 }
 
 var _ = types.Typ
+
+// token view of a structured string: one token per literal byte, one per opaque part
+type strTok struct {
+	b  *Term
+	op *Str
+}
+
+func tokens(s *Str) []strTok {
+	var out []strTok
+	for _, p := range parts(s) {
+		if p.Kind == sBytes {
+			for _, b := range p.B {
+				out = append(out, strTok{b: b})
+			}
+		} else {
+			out = append(out, strTok{op: p})
+		}
+	}
+	return out
+}
+
+func tokEq(a, b strTok) (bool, bool) {
+	switch {
+	case a.b != nil && b.b != nil:
+		if a.b.Const && b.b.Const {
+			return a.b.Uint() == b.b.Uint(), true
+		}
+		return a.b.S == b.b.S, a.b.S == b.b.S
+	case a.op != nil && b.op != nil:
+		return a.op.Key() == b.op.Key(), true // distinct opaque parts are treated as different strings
+	}
+	return false, true // an opaque part never equals a literal byte (opaque parts are alphanumeric, see assumptions)
+}
+
+// replaceAllTokens: strings.ReplaceAll on structured strings, matching whole tokens.
+func (in *Interp) replaceAllTokens(s, old, nw *Str) *Str {
+	st, ot := tokens(s), tokens(old)
+	in.summUsed["assumption: opaque parts match only themselves in substring search"] = true
+	if len(ot) == 0 {
+		return s
+	}
+	var out []*Str
+	flush := func(t strTok) {
+		if t.b != nil {
+			out = append(out, &Str{Kind: sBytes, B: []*Term{t.b}})
+		} else {
+			out = append(out, t.op)
+		}
+	}
+	i := 0
+	for i < len(st) {
+		match := i+len(ot) <= len(st)
+		for j := 0; match && j < len(ot); j++ {
+			eq, known := tokEq(st[i+j], ot[j])
+			if !known {
+				eq = in.branch(Eq(st[i+j].b, ot[j].b)) // symbolic bytes: fork
+			}
+			match = eq
+		}
+		if match {
+			out = append(out, nw)
+			i += len(ot)
+		} else {
+			flush(st[i])
+			i++
+		}
+	}
+	return concatStr(out...)
+}
